@@ -736,4 +736,58 @@ def hiddenAmbiguities (sigs : List Sig) : List (Nat × Nat) :=
 
 end Overlap
 
+/-! ## The cache key of `PartialDispatcher.partial_call`, as the source builds it -/
+
+/-- Source forms of the expression used as `self._cache[...]` key that the translator recognises
+    (fv/harness/c16.py `extract`, from the AST of funsor/registry.py). -/
+inductive KeyForm where
+  /-- `tuple(map(typing_wrap, map(deep_type, args)))` — the deep types themselves -/
+  | deepTypes
+  /-- `tuple(typing_wrap(C' if isinstance(arg, C) else deep_type(arg)) for arg in args)`:
+      arguments that are instances of leaf class `C` are keyed by the constant class `C'` -/
+  | perArg (cases : List (Nat × Nat))
+  /-- anything else (not understood: the obligation fails closed) -/
+  | other
+  deriving Repr, Inhabited, DecidableEq
+
+/-- origin leaf of an argument type (argument types are never `Any` / `Union`) -/
+def argOrg (E : Env) : Ty → Nat
+  | .cls k => k
+  | .tupB | .tup _ | .tupV _ => E.kTuple
+  | .fsB | .fs _ => E.kFs
+  | .fn k _ => k
+  | _ => E.kVar
+
+def keyAtom (E : Env) (cases : List (Nat × Nat)) (t : Ty) : Ty :=
+  match cases.find? (fun c => E.L (argOrg E t) c.1) with
+  | some c => .cls c.2
+  | none => t
+
+/-- the key computed for a tuple of argument (deep) types -/
+def keyFn (E : Env) : KeyForm → List Slot → List Slot
+  | .deepTypes, ts => ts
+  | .perArg cases, ts => ts.map fun s =>
+      match s with
+      | .one ⟨w, t⟩ =>
+        match cases.find? (fun c => E.L (argOrg E t) c.1) with
+        | some c => .one ⟨true, .cls c.2⟩
+        | none => .one ⟨w, t⟩
+      | v => v
+  | .other, _ => []
+
+def KeyForm.injective : KeyForm → Bool
+  | .deepTypes => true
+  | .perArg cases => cases.isEmpty
+  | .other => false
+
+/-- `partial_call` with an arbitrary key function: lookup and store under `keyf types`, resolve a miss
+    from the full types. -/
+def Disp.callK (E : Env) (keyf : List Slot → List Slot) (d : Disp) (types : List Slot) : DRes × Disp :=
+  match cacheLookup (keyf types) d.cache with
+  | some i => (.found i, d)
+  | none =>
+    match dispatch E d.sigs d.order types with
+    | .found i => (.found i, { d with cache := (keyf types, i) :: d.cache })
+    | r => (r, d)
+
 end FV.C16
